@@ -309,5 +309,9 @@ fn supervise_once(ctx: &Ctx, set: &dyn CaseSet, iso: &Isolation, from: usize, to
 }
 
 pub fn exe_for(profile: &str) -> PathBuf {
+    // coverage runs point every worker at the instrumented binary
+    if let Ok(p) = std::env::var("VERIF_WORKER_EXE") {
+        return PathBuf::from(p);
+    }
     crate::ctx::verif_dir().join("target").join(profile).join("vfmon")
 }
